@@ -9,6 +9,7 @@ require (
 	github.com/klauspost/compress v1.17.11
 	github.com/miekg/dns v1.1.62
 	github.com/quic-go/quic-go v0.48.2
+	google.golang.org/protobuf v1.35.2
 )
 
 require (
@@ -43,7 +44,6 @@ require (
 	golang.org/x/sync v0.10.0 // indirect
 	golang.org/x/sys v0.28.0 // indirect
 	golang.org/x/text v0.21.0 // indirect
-	google.golang.org/protobuf v1.35.2 // indirect
 	gopkg.in/ini.v1 v1.67.0 // indirect
 	gopkg.in/yaml.v3 v3.0.1 // indirect
 )
